@@ -618,7 +618,8 @@ Fixpoint rets_distinct (d : mdef) {struct d} : bool :=
 (* Part 7: scenarios and observations                                                   *)
 Inductive op := OSetIn (p : list kidref) (k : nat) (x : Z) | OSetOut (p : list kidref) (l : nat) (x : Z) | ORun
               | OSetBad (p : list kidref) (k : nat)    (* assign a value that is not an int (a str) *)
-              | ORunKw (kw : list (nat * Z)).          (* m.run(x=v, ...) / m(x=v, ...): HasIO.set_input_values, then run *)
+              | ORunKw (kw : list (nat * Z))           (* m.run(x=v, ...) / m(x=v, ...): HasIO.set_input_values, then run *)
+              | OReplace (p : list kidref).            (* replace the function child at p by a fresh node of its class *)
 
 (* Would the assignment of a non-int be refused?  DataChannel.value setter, in source order: the channel
    checks the value against its OWN hint, then hands it to its value_receiver (whose setter does the
@@ -656,6 +657,51 @@ Fixpoint refuses_at (s : snode) (p : list kidref) (k : nat) {struct s} : bool :=
       end
   end.
 
+(* Composite.replace_child(child, fresh node of the same class) for a FUNCTION child (also reached through
+   child.replace_with(...) and `macro.child = Class`), in source order: copy_io gives the replacement the
+   old node's connections and its data values; the parent forgets its cache (remove_child / add_child);
+   the replacement starts without a cache; then every value link that touched the old node is re-forged
+   ON THE REPLACEMENT -- the macro inputs linked to ITS inputs (and to no sibling's), whose current value
+   the receiver setter pushes into them, and its outputs linked to the macro's outputs, which receive the
+   replacement's current value (and pass it on upward).  The wiring itself (snode) is unchanged. *)
+Definition is_fn_child (s : snode) : bool := match s with SFn _ false _ => true | _ => false end.
+
+Definition relink_inputs (recvs : list recv) (ins : list val) (j : nat) (w : vnode) : vnode :=
+  fold_left (fun w i => match nth i recvs ROrphan with
+                        | RBody j' k => if Nat.eqb j' j then set_fn w k (nth i ins None) else w
+                        | _ => w
+                        end) (seq 0 (List.length recvs)) w.
+
+Definition all_out_pushes (w : vnode) : list (nat * val) :=
+  map (fun l => (l, nth l (v_outs w) None)) (seq 0 (List.length (v_outs w))).
+
+Fixpoint replace_at (s : snode) (v : vnode) (p : list kidref) {struct s} : option (vnode * list (nat * val)) :=
+  match s, p with
+  | SMac _ _ _ recvs _ _ body _ _, KBody j :: p' =>
+      match v with VN ins outs c ui vb =>
+        if Nat.ltb j (List.length body) then
+          let old := nth j vb dv in
+          let orecv := sb_orecv (nth j body dsb) in
+          match p' with
+          | [] =>
+              if dispatch is_fn_child false body j then
+                let w := relink_inputs recvs ins j (VN (v_ins old) (v_outs old) None [] []) in
+                let '(outs', q) := apply_pushes orecv (all_out_pushes w) outs in
+                Some (VN ins outs' None ui (upd_nth j w vb), q)
+              else None
+          | _ =>
+              match dispatch (fun s' => replace_at s' old p') None body j with
+              | Some (vj', ps) =>
+                  let '(outs', q) := apply_pushes orecv ps outs in
+                  Some (VN ins outs' c ui (upd_nth j vj' vb), q)
+              | None => None
+              end
+          end
+        else None
+      end
+  | _, _ => None
+  end.
+
 Definition set_kw (s : snode) (v : vnode) (kw : list (nat * Z)) : vnode :=
   fold_left (fun w kx => set_in s w (fst kx) (Some (snd kx))) kw v.
 
@@ -666,6 +712,7 @@ Definition apply_op (s : snode) (v : vnode) (o : op) : option (vnode * nat) :=
   | ORun => match run s v with Some (v', calls, _) => Some (v', calls) | None => None end
   | OSetBad p k => if refuses_at s p k then Some (v, 0) else None   (* refused: nothing changes; accepted: not modelled *)
   | ORunKw kw => match run s (set_kw s v kw) with Some (v', calls, _) => Some (v', calls) | None => None end
+  | OReplace p => match replace_at s v p with Some (v', _) => Some (v', 0) | None => None end
   end.
 
 Fixpoint apply_ops (s : snode) (v : vnode) (ops : list op) : option vnode :=
@@ -764,6 +811,7 @@ Fixpoint osteps (s : snode) (v : vnode) (ops : list op) : list obs :=
           (match o with
            | ORun | ORunKw _ => OL [OS "ok"; on calls; odyn s v']
            | OSetBad _ _ => OL [OS "TypeError"; odyn s v']
+           | OReplace _ => OL [OS "replaced"; ostatic s; odyn s v']
            | _ => odyn s v'
            end) :: osteps s v' r
       | None => [OL [OS (match o with OSetBad _ _ => "accepted" | _ => "fail" end)]]
